@@ -27,6 +27,8 @@ type forkOpts struct {
 	verbatim    bool                // compare without the canonical rewrites (self-test of the rewrites)
 }
 
+var reAnySpelling = regexp.MustCompile(`\bany\b`)
+
 // normFunc renders the normal form of a function declaration.
 func (e *Env) normFunc(pkg *packages.Package, fd *ast.FuncDecl, opt forkOpts, upstream bool) (string, error) {
 	var buf bytes.Buffer
@@ -46,6 +48,8 @@ func (e *Env) normFunc(pkg *packages.Package, fd *ast.FuncDecl, opt forkOpts, up
 	if upstream && opt.rewrite != nil {
 		text = opt.rewrite(text)
 	}
+	// spellings that depend on the Go version a side was written for, on both sides
+	text = reAnySpelling.ReplaceAllString(text, "interface{}")
 	// parsed as a file so that go/parser resolves local declarations (Ident.Obj)
 	pf, err := parser.ParseFile(token.NewFileSet(), "norm.go", "package p\nvar _ = "+text, 0)
 	if err != nil {
